@@ -47,6 +47,7 @@ def run(idx: ProgramIndex, rep: Report, tier: str):
     call_time_noise_forwarded(idx, rep)
     positional_contract(idx, rep)
     whole_noise_outside(idx, rep)
+    call_time_noise_priority(idx, rep)
 
 
 def marginals(idx: ProgramIndex, rep: Report):
@@ -709,3 +710,88 @@ def whole_noise_outside(idx: ProgramIndex, rep: Report):
         rep.add("C12-10", "%s:%s[%d direct call(s) of likelihood.noise_covar]" % (fi.module.name, fi.qualname, len(sites)), "%s:%d" % (fi.module.relpath, sites[0].lineno), False,
                 "`%s` takes the first noise model of the likelihood as THE noise: with %s(learn_additional_noise=True) the second noise term is missing - KISS-GP fantasy update: mean 0.305 / covariance 0.099 from the dense conditional, equal to the conditional computed with second_noise = 0 to 1e-8" % (" ".join(src(sites[0]).split())[:60], adders[0]), {})
     rep.add("C12-10", "gpytorch:<direct uses of likelihood.noise_covar outside the likelihood classes>", "gpytorch/", True, "%d function(s) inspected use it" % n, {"functions": n}, trivial=True)
+
+
+# ---- C12-11 --------------------------------------------------------------------------------------------------------
+def call_time_noise_priority(idx: ProgramIndex, rep: Report):
+    """'... the noise passed at call time in place of the stored fixed noise': in a noise model's forward the `noise` argument has priority.
+    The stored noise may replace the argument only where the argument was tested to be None; a re-binding of the argument from self.noise
+    on any other path (e.g. "whenever the stored noise fits the requested shape") silently discards the caller's noise."""
+    rep.rule("C12-11", "in the noise models the call-time noise has priority: the `noise` argument is re-bound from the stored noise only under a test that it is None")
+    n = 0
+    N = idx.find_class("Noise")
+    F = idx.find_class("FixedGaussianNoise")
+    for cls in sorted(set([F] + list(idx.subclasses(N))), key=lambda c: c.qualname):
+        fi = cls.methods.get("forward")
+        if fi is None:
+            continue
+        a = fi.node.args
+        names = [x.arg for x in a.posonlyargs + a.args + a.kwonlyargs]
+        if "noise" not in names:
+            continue
+        n += 1
+        sn = fi.params[0]
+        probs = []
+        for st in ast.walk(fi.node):
+            if isinstance(st, ast.Assign) and any(isinstance(t, ast.Name) and t.id == "noise" for t in st.targets) and any(isinstance(x, ast.Attribute) and chain(x.value) == sn for x in ast.walk(st.value)):
+                tests = [t for t, br in _tests_around_c12(fi.node, st) if _is_none_test(t, "noise", br)]
+                if not tests:
+                    probs.append("line %d: `%s` replaces the argument outside a test that it is None" % (st.lineno, " ".join(src(st).split())[:50]))
+        # the returned operator on the paths where the argument is given must be built from it: a return of Diag(self.noise) has to be under `noise is None`
+        for r in ast.walk(fi.node):
+            if isinstance(r, ast.Return) and r.value is not None and any(isinstance(x, ast.Attribute) and chain(x) == "%s.noise" % sn for x in ast.walk(r.value)):
+                tests = _tests_around_c12(fi.node, r)
+                under_none = any(_is_none_test(t, "noise", br) for t, br in tests) or any(_is_none_test(t, "noise", not br) for t, br in tests if False)
+                # an `elif` after `if noise is not None: return ...` is under noise is None as well
+                if not under_none and not _after_returning_not_none(fi.node, r, "noise"):
+                    probs.append("line %d: the stored noise is returned on a path where the argument may have been given" % r.lineno)
+        rep.add("C12-11", "%s:%s.forward[call-time noise]" % (cls.module.name, cls.qualname), fi.where, not probs,
+                "the stored noise is used only where the `noise` argument is None" if not probs else "; ".join(probs) + ": a call-time noise of the same length as the stored one is silently ignored (marginal covariance off by the difference of the two)", {})
+    rep.floor("C12-11", "noise models with a call-time noise argument", n, 2)
+
+
+def _is_none_test(t: ast.AST, name: str, branch: bool) -> bool:
+    """`name is None` in its true branch / `name is not None` in its false branch"""
+    if isinstance(t, ast.Compare) and isinstance(t.left, ast.Name) and t.left.id == name and len(t.ops) == 1 and isinstance(t.comparators[0], ast.Constant) and t.comparators[0].value is None:
+        return (isinstance(t.ops[0], ast.Is) and branch) or (isinstance(t.ops[0], ast.IsNot) and not branch)
+    return False
+
+
+def _tests_around_c12(fn: ast.AST, target: ast.AST):
+    out = []
+
+    def rec(node, acc) -> bool:
+        if node is target:
+            out.extend(acc)
+            return True
+        if isinstance(node, ast.If):
+            for st in node.body:
+                if rec(st, acc + [(node.test, True)]):
+                    return True
+            for st in node.orelse:
+                if rec(st, acc + [(node.test, False)]):
+                    return True
+            return False
+        for ch in ast.iter_child_nodes(node):
+            if rec(ch, acc):
+                return True
+        return False
+    rec(fn, [])
+    return out
+
+
+def _after_returning_not_none(fn: ast.AST, target: ast.AST, name: str) -> bool:
+    """target follows, in the same block, an `if name is not None: return ...` (so the argument is None here)"""
+    for node in ast.walk(fn):
+        for blk in ("body", "orelse"):
+            stmts = getattr(node, blk, None)
+            if not isinstance(stmts, list):
+                continue
+            seen_guard = False
+            for st in stmts:
+                if isinstance(st, ast.If) and _is_none_test(st.test, name, False) and st.body and isinstance(st.body[-1], ast.Return) and not st.orelse:
+                    seen_guard = True
+                    continue
+                if seen_guard and any(x is target for x in ast.walk(st)):
+                    return True
+    return False
